@@ -19,8 +19,8 @@ SEND = ("sendto", "send", "sendmsg", "write")
 
 EXPLANATION = (
     "Static obligations over udp_engine.hpp: R1 in readFromListener and onClient every positive receive result reaches exactly one data "
-    "callback with (buf.data(), n) of that call before the next receive (ghost counting), and the receive buffer is re-created per "
-    "iteration; R2 sendDo performs at most one send/sendto of (payload.data(), payload.size()) per command, queues the WHOLE payload on "
+    "callback with (buf.data(), n) of that call before the next receive (ghost counting), and every receive is given the whole "
+    "(data(), size()) of a buffer that is sized ioReadChunk and not otherwise modified (per datagram or per wake-up alike); R2 sendDo performs at most one send/sendto of (payload.data(), payload.size()) per command, queues the WHOLE payload on "
     "would-block, and the flush functions send one whole queue element and pop exactly it — nothing ever splits a datagram; R3 the "
     "destination of every sendto is the peer address of the session looked up by the command's id (or the copy stored with the queued "
     "datagram); R4 the session a datagram is delivered on is the one indexed under the sender's address or the one just created and "
@@ -475,6 +475,12 @@ class Sentinels:
                     l = strip_casts(l)
                     if op in ("==", "!=") and l is not None and l.get("k") == "var" and self._const(rr) is not None and not ("parm" in l and l["d"] not in flow.defs_of):
                         self._track(l["d"], self._const(rr))
+                # a bool local that is only ever given constants and is branched on as it stands (`bool done = false; while (!done) { … done = true; }`,
+                # a helper's `return true;` / `return false;`): the flag form of break / early return — atom `flag == true`
+                if x.get("k") == "var" and (x.get("t") or "").strip() in ("bool", "const bool") and len(self.atoms) < self.budget:
+                    ds = flow.defs_of.get(x.get("d"), [])
+                    if ds and all(flow.rhs[k] is not None and (_peel(flow.rhs[k]) or {}).get("k") == "bool" for k in ds):
+                        self.atoms.setdefault((x["d"], 1), "eq:%s:1" % x["d"])
 
     @staticmethod
     def _const(n):
@@ -503,6 +509,8 @@ class Sentinels:
         return sorted(self.atoms.values())
 
     def leaf(self, n):
+        if n.get("k") == "var" and (n.get("t") or "").strip() in ("bool", "const bool") and (n.get("d"), 1) in self.atoms:
+            return A(self.atoms[(n["d"], 1)])
         for (op, l, rr) in common.cmp_both(n):
             l = strip_casts(l)
             if op in ("==", "!=") and l is not None and l.get("k") == "var" and (l["d"], self._const(rr)) in self.atoms:
@@ -774,7 +782,11 @@ def r1(ctx, r):
             ok = bv is not None and bufc is not None and fl.canon(bv[0]) == ("mcall", "data", bufc, ()) and [v for v in fl.values(bv[1])] == [rd.node]
             r.expect(ok, f, e, "%s: payload" % name, "the data event does not carry (buffer.data(), n) of the receive that just returned: %s" % show(e.node)[:100],
                      okdesc="%s: onData(buf.data(), n)" % name)
-        # a fresh buffer per datagram
+        # the buffer the kernel writes each datagram into: at every receive it is the WHOLE of a buffer of ioReadChunk bytes — the receive
+        # is given (B.data(), B.size()), every operation that sets B's size sets it to the configured chunk (constructor argument or
+        # resize), one of them on every path to the receive, and nothing else changes B (no append / insert / erase / assignment).  Then
+        # no datagram is truncated to an earlier one's length or stored behind earlier bytes, whether B is created per datagram or once
+        # per wake-up (the event exposes only the first n bytes, clause above).
         bn = None
         for x in walk(strip_wrappers(rd.node["args"][1])):
             if x.get("k") == "var":
@@ -782,11 +794,46 @@ def r1(ctx, r):
         bd = bn.get("d") if bn is not None else None
         while bd in fl.refs:        # (a helper's reference parameter names the caller's buffer)
             bd = fl.refs[bd]
-        decls = [e for e in f.stmts() if e.node.get("k") == "decl" and bd is not None and any(v["d"] == bd for v in e.node["vars"])]
+
+        def names_buf(x, bd=bd, fl=fl):
+            x = strip_wrappers(x) if x is not None else None
+            d = x.get("d") if x is not None and x.get("k") == "var" else None
+            while d in fl.refs:
+                d = fl.refs[d]
+            return d is not None and d == bd
+
+        def is_chunk(x, fl=fl):
+            return (cfield(fl.canon(x)) or "").endswith("::ioReadChunk")
+        sizers, bad = [], []
+        for e in f.stmts():
+            n = e.node
+            if n.get("k") == "decl":
+                for v in n["vars"]:
+                    if v["d"] == bd:
+                        i = _peel(v["init"]) if v.get("init") is not None else None
+                        args = [a_ for a_ in (i or {}).get("args", []) if not a_.get("def")] if i is not None and i.get("k") == "ctor" else None
+                        if args is None or len(args) > 1:
+                            bad.append((e, "initialised with `%s`" % show(v.get("init"))[:50]))
+                        elif len(args) == 1:
+                            sizers.append((e, args[0]))
+            elif n.get("k") == "mcall" and names_buf(n.get("obj")):
+                mth = last(n.get("callee", ""))
+                if mth == "resize" and len([a_ for a_ in n["args"] if not a_.get("def")]) == 1:
+                    sizers.append((e, n["args"][0]))
+                elif mth in access.MUTATORS and mth not in ("reserve", "shrink_to_fit"):
+                    bad.append((e, "%s()" % mth))
+            elif n.get("k") == "opcall" and n.get("memberop") and n["args"] and names_buf(n["args"][0]) and n.get("op") in ("=", "+="):
+                bad.append((e, "assigned"))
+        a_ = rd.node["args"]
+        B = fl.canon(bn) if bn is not None else None
+        whole = B is not None and len(a_) > 2 and fl.canon(a_[1]) == ("mcall", "data", B, ()) and fl.canon(a_[2]) == ("mcall", "size", B, ())
+        wrong = [(e, "sized with `%s`" % show(x)[:50]) for (e, x) in sizers if not is_chunk(x)] + bad
+        sized = any(elem_dominates(f, e, rd) for (e, x) in sizers)
         r.instance()
-        ok = bool(decls) and search(f, rd, lambda x: x is rd, stop=lambda x: x in decls, eh=False) is None
-        r.expect(ok, f, rd, "%s: buffer reused" % name, "the receive buffer outlives a loop iteration: bytes of consecutive datagrams can accumulate in one buffer",
-                 okdesc="%s: receive buffer declared inside the loop" % name)
+        r.expect(whole and sized and not wrong, f, wrong[0][0] if wrong else rd, "%s: receive buffer" % name,
+                 "the receive call is not given, for every datagram, the whole of a buffer of ioReadChunk bytes (%s): a datagram can be cut to the size left by an earlier one or stored "
+                 "behind earlier bytes" % ("; ".join(w for (_, w) in wrong) or ("the call does not get (buffer.data(), buffer.size())" if not whole else "the buffer is not sized before the receive")),
+                 okdesc="%s: every receive gets (buf.data(), buf.size()) of a buffer sized ioReadChunk and not otherwise modified" % name)
 
 
 def r9(ctx, r):
@@ -1187,19 +1234,17 @@ def r7(ctx, r):
     for name in ("readFromListener", "onClient"):
         rm = recv_model(ctx, name)
         f, rd = rm.f, rm.rd
-        vocab = Vocab(["npos"])
+        vocab = Vocab(["npos"] + rm.sent.names())       # + flags and sentinels: `while (!drained)` / `if (!readOne()) return` are the loop's exits
 
-        def leaf(n, rd=rd, fl=rm.fl):
+        def leaf(n, rd=rd, fl=rm.fl, rm=rm):
             for (op, l, rr) in common.cmp_both(n):
                 l0 = strip_casts(l)
                 if l0 is not None and l0.get("k") == "var" and const_value(rr) == 0 and strip_casts(rr).get("k") == "int" and fl.values(l0) == [rd.node]:
                     return {">": A("npos"), "<=": Not(A("npos")), "<": Not(A("npos")), "==": Not(A("npos"))}.get(op)
-            return None
+            return rm.sent.leaf(n)
 
-        def eff(e, rd=rd):
-            if e is rd:
-                return [("set", "npos", True)]
-            return None
+        def eff(e, rd=rd, leaf=leaf, rm=rm):
+            return ([("set", "npos", True)] if e is rd else []) + rm.sent.effects(e, leaf)
         pa = PredAbs(f, vocab, leaf, eff, init=Not(A("npos")))
         r.instance()
         w = search(f, rd, "exit", stop=lambda x, rd=rd: x is rd or (x.kind == "stmt" and x.node.get("k") == "mcall" and last(x.node.get("callee", "")) == "closeNow"),
@@ -1282,7 +1327,7 @@ def r8(ctx, r):
 
 
 def run(ctx, ck):
-    ck.run_rule("C06-R1", "one receive → exactly one data event with the whole payload; fresh buffer per datagram", "A5 ghost counting + A2", lambda r: r1(ctx, r))
+    ck.run_rule("C06-R1", "one receive → exactly one data event with the whole payload; every receive into a whole ioReadChunk buffer", "A5 ghost counting + A2", lambda r: r1(ctx, r))
     ck.run_rule("C06-R2", "one command → at most one datagram, sent whole; queued whole; flushed whole", "A5 + shape", lambda r: r2(ctx, r))
     ck.run_rule("C06-R3", "destination comes from the addressed session", "A10 dataflow shape", lambda r: r3(ctx, r))
     ck.run_rule("C06-R4", "delivery session is chosen by source address; accept path indexes before announcing", "A2 + dataflow shape", lambda r: r4(ctx, r))
